@@ -13,4 +13,8 @@ theorem C12_bridge_source_lines :
     src_retry = model_retry ∧ src_cond = model_cond := by
   refine ⟨?_, ?_, ?_, ?_, ?_⟩ <;> rfl
 
+/-- the change of |ψ|² that feeds the windowed mean is recorded once per solve step, in `update` outside the
+    screening loop (the model's `adaptAfter` is applied once per update), and it is the change of |ψ|² -/
+theorem C12_bridge_record_site : src_record = model_record := rfl
+
 end Tdgl.C12
